@@ -802,18 +802,23 @@ class Weaver:
                         nxt = e + 1
                         while T(nxt).kind in ("ws", "comment"):
                             nxt += 1
-                        if len(inner_sig) == 2 and T(inner_sig[0]).text == "continue" and T(inner_sig[1]).text == ";" \
-                                and not (T(nxt).kind == "ident" and T(nxt).text == "else"):
+                        # `continue;` must be the LAST statement of the block (anything before it stays in the `if` arm) and no
+                        # other `continue` may sit deeper inside the block
+                        tail_ok = len(inner_sig) >= 2 and T(inner_sig[-2]).text == "continue" and T(inner_sig[-1]).text == ";" \
+                            and (len(inner_sig) == 2 or T(inner_sig[-3]).text in (";", "}")) \
+                            and not any(T(q).kind == "ident" and T(q).text == "continue" for q in inner_sig[:-2])
+                        if tail_ok and not (T(nxt).kind == "ident" and T(nxt).text == "else"):
+                            inner_sig = inner_sig[-2:]
                             add(T(inner_sig[0]).start, T(inner_sig[1]).end, "", "R10")
                             add(T(e).end, T(e).end, " else {", "R10", 10)
                             closers += 1
                             handled.add(inner_sig[0])
-                            elog.append("R10: `if .. { continue; }` => if/else wrapping the rest of the loop body (line %d)" % line(T(k).start))
+                            elog.append("R10: `if .. { ..; continue; }` => if/else wrapping the rest of the loop body (line %d)" % line(T(k).start))
                         k = e + 1
                         continue
                     k += 1
                 if set(conts) != handled:
-                    raise Lost("%s::%s: R10 side condition violated (a `continue` that is not the sole statement of a top-level `if`)" % (f, fn))
+                    raise Lost("%s::%s: R10 side condition violated (a `continue` that is not the last statement of a top-level `if` block)" % (f, fn))
                 pz = T(lp["body_close"]).start
                 add(pz, pz, "}" * closers + "\n", "R10", 95)
         # R2: debug_assert*/assert*
